@@ -182,6 +182,7 @@ type Pool struct {
 	n       int
 	env     []string
 	Crashes int
+	OneShot bool // start a fresh worker process for every request
 	mu      sync.Mutex
 }
 
@@ -291,6 +292,10 @@ func (p *Pool) Map(reqs []N, perReq time.Duration) []N {
 						resp = N{"k": "badresp", "msg": err.Error()}
 					}
 					resps[j] = resp
+					if p.OneShot {
+						w.kill()
+						w = nil
+					}
 				case <-time.After(perReq):
 					resps[j] = N{"k": "hang"}
 					w.kill()
